@@ -4,6 +4,7 @@ import (
 	"container/heap"
 	"math/rand/v2"
 	"sort"
+	"strings"
 
 	raft "go.etcd.io/raft/v3"
 	pb "go.etcd.io/raft/v3/raftpb"
@@ -1083,6 +1084,18 @@ func (g *Gen) fault() {
 
 // ProfileByName returns a registered profile.
 func ProfileByName(name string) (Profile, bool) {
+	if base, found := strings.CutSuffix(name, "+deep"); found {
+		p, ok := Profiles()[base]
+		if !ok {
+			return p, false
+		}
+		// thorough tier: chaos phases three times as long, more client work
+		p.Name = name
+		p.MinActions, p.MaxActions = p.MinActions*2, p.MaxActions*3
+		p.MaxProposals = p.MaxProposals * 5 / 2
+		p.MaxConfChanges *= 2
+		return p, true
+	}
 	p, ok := Profiles()[name]
 	return p, ok
 }
